@@ -182,6 +182,31 @@ Theorem C05_fetch_preceding : forall c inh, el_ok c = true -> NoDup (cel_ids c) 
 Proof. exact c_fetch_preceding_abs. Qed.
 Print Assumptions C05_fetch_preceding.
 
+(* passed filters only, no ambient restriction: the following axis is exactly the restriction (no guard) *)
+Theorem C05_following_passed_filters : forall c inh, el_ok c = true -> NoDup (cel_ids c) ->
+  forall F n, In n (ids (abs_el inh c)) ->
+  c_iterate_following c ftrue F n = Ok (filter F (a_following (abs_el inh c) n)).
+Proof. exact c_following_passed. Qed.
+Print Assumptions C05_following_passed_filters.
+
+(* traverse_df_ltr_btt with passed filters: exact description (post-order through matching children only) ... *)
+Theorem C05_traverse_df_btt_filtered : forall c inh, el_ok c = true -> NoDup (cel_ids c) ->
+  forall F n, In n (ids (abs_el inh c)) -> c_traverse_df_btt c ftrue F n = Ok (a_df_btt_pruned (abs_el inh c) F n).
+Proof. exact c_traverse_df_btt_filtered. Qed.
+Print Assumptions C05_traverse_df_btt_filtered.
+(* ... the restriction of the unfiltered sequence (given root kept) under the decidable guard "a non-matching node has only
+   non-matching descendants"; the unguarded statement is false for the code as it is (finding C05-df-btt-prunes) *)
+Theorem C05_traverse_df_btt_partial : forall c inh, el_ok c = true -> NoDup (cel_ids c) ->
+  forall F n, up_closed_b F (abs_el inh c) = true -> In n (ids (abs_el inh c)) ->
+  c_traverse_df_btt c ftrue F n = Ok (filter F (removelast (a_df_btt (abs_el inh c) n)) ++ [n]).
+Proof. exact c_traverse_df_btt_partial. Qed.
+Print Assumptions C05_traverse_df_btt_partial.
+Theorem C05_traverse_df_btt_refuted : exists c F n,
+  el_ok c = true /\ nodupb (cel_ids c) = true /\ In n (ids (abs_el [] c)) /\
+  c_traverse_df_btt c ftrue F n <> Ok (filter F (removelast (a_df_btt (abs_el [] c) n)) ++ [n]).
+Proof. exact df_btt_filtered_refuted. Qed.
+Print Assumptions C05_traverse_df_btt_refuted.
+
 (* full_text *)
 Theorem C05_full_text : forall c inh, el_ok c = true -> NoDup (cel_ids c) ->
   forall D n, In n (ids (abs_el inh c)) ->
@@ -226,9 +251,9 @@ Example C05_example_descendants :
 Proof. vm_compute. repeat split; reflexivity. Qed.
 
 (* NOT covered by theorem (modelled in Conc/CNav.v, compared with the code and searched directly on every run):
-   - the traversers under an ambient filter, and traverse_df_ltr_btt / traverse_df_ltr_ttb with passed filters: they
-     walk through visible children only and yield the given root unconditionally;
+   - the traversers under an ambient filter (they walk through visible children only; traverse_bf_ltr_ttb applies the
+     passed filters to the given root, the depth-first ones yield it unconditionally);
    - the sorter and `index` paths under an ambient filter (indexes are then positions among the visible siblings;
      a hidden tag node raises InvalidCodePath);
-   - root-level siblings of a document (prologue / epilogue comments and PIs) and DETACHED text nodes: outside `cel`;
-     detached / parentless nodes are covered by the check (correspondence with `heap_loose`), not by a theorem. *)
+   - root-level siblings of a document (prologue / epilogue comments and PIs; model: `heap_doc`) and DETACHED text nodes
+     (model: `heap_loose`): outside `cel`; both are covered by the check (correspondence and direct search), not by a theorem. *)
